@@ -49,6 +49,7 @@ type cancelCtx struct {
 	deadline time.Time
 	hasDl    bool
 	timer    *rt.Timer
+	cause    error
 }
 
 func (c *cancelCtx) Deadline() (time.Time, bool) {
@@ -188,8 +189,28 @@ func WithValue(parent Context, key, val interface{}) Context {
 	return &valueCtx{parent, key, val}
 }
 
-// Cause mirrors context.Cause for the plain cases.
-func Cause(c Context) error { return c.Err() }
+// WithCancelCause mirrors context.WithCancelCause (the cause is kept but Err
+// reports Canceled, as in the standard library).
+func WithCancelCause(parent Context) (Context, func(error)) {
+	c := newCancelCtx(parent)
+	return c, func(cause error) {
+		if c.cause == nil {
+			c.cause = cause
+		}
+		c.cancel(Canceled)
+	}
+}
+
+// Cause mirrors context.Cause.
+func Cause(c Context) error {
+	if cc := parentCancelCtx(c); cc != nil {
+		if cc.cause != nil {
+			return cc.cause
+		}
+		return cc.err
+	}
+	return c.Err()
+}
 
 // Native converts a simulated context into a real one for foreign code. The
 // result carries the deadline and values; cancellation is observed through
